@@ -387,7 +387,7 @@ def gParamDecl : G :=
       let md := v.nth 0; let id := v.nth 1; let c := v.nth 2
       let ty := if c.kind == "#seq" then c.nth 1 else Tree.none
       let start := if md.isNone then id.rng.s else md.rng.s
-      mk "param_decl" id.ident ⟨start, if ty.isNone then id.rng.s else ty.rng.e⟩ (optList ty)
+      mk "param_decl" id.ident ⟨start, if ty.isNone then id.rng.e else ty.rng.e⟩ (optList ty)
         (if md.isNone then [] else ["modifier=" ++ md.kind]) (some id.rng))
     (seqL [.opt (toks [Kind.Const, Kind.Var, Kind.InOut]), gIdentToken,
            .ifTok [Kind.Colon] (.prepend "Failed parsing parameter decl: " (.ref nType)) (.eps Tree.none)])
